@@ -16,7 +16,9 @@ import (
 //
 //	C <config>
 //	R <hash> <mode>                                    root state
-//	E <from> <to> <dev 0|1> <op>                       transition
+//	E <from> <to> <dev 0|1> <op> <hist>                transition (<hist> = hash of the history that led to <from>)
+//	Z <hash>                                           state expanded, no default event enabled
+//	K <hash> <rounds>                                  closure: round-robin from <hash> reached the fixed point
 //	S <hash> <mode> <quiescent 0|1> <ok 0|1> <best tables> <detail>   first time a process sees <hash>
 type Trace struct {
 	f      *os.File
@@ -73,16 +75,22 @@ func b01(b bool) string {
 	return "0"
 }
 
-func (t *Trace) state(h string, s *Sim, sn *Snap, q bool, fs []Finding) {
+func (t *Trace) stateLine(h string, s *Sim, sn *Snap, q bool, fs []Finding) string {
 	if t.seen[h] {
-		return
+		return ""
 	}
 	t.seen[h] = true
 	detail := "-"
 	if len(fs) > 0 {
 		detail = fs[0].Clause + "|" + fs[0].Key + "|" + fs[0].Detail
 	}
-	t.line("S", h, s.Mode(), b01(q), b01(len(fs) == 0), sn.BestTables(), detail)
+	return strings.Join([]string{"S", h, s.Mode(), b01(q), b01(len(fs) == 0), clean(sn.BestTables()), clean(detail)}, "\t") + "\n"
+}
+
+func (t *Trace) state(h string, s *Sim, sn *Snap, q bool, fs []Finding) {
+	if l := t.stateLine(h, s, sn, q, fs); l != "" {
+		t.f.WriteString(l)
+	}
 }
 
 // Root records the initial state once per process.
@@ -98,11 +106,17 @@ func (t *Trace) Root(s *Sim) {
 	t.state(h, s, sn, q, sn.CheckShortest())
 }
 
+// NoOps records that a state was expanded and has no enabled default event.
+func (t *Trace) NoOps(canon string) { t.line("Z", t.Hash(canon)) }
+
+// Closure records that the default fair schedule was run from state h to the fixed point.
+func (t *Trace) Closure(h string, rounds int) { t.line("K", h, fmt.Sprint(rounds)) }
+
 // Edge records one executed transition and the target state's oracle verdicts.
-func (t *Trace) Edge(from string, s *Sim, sn *Snap, op string, dev bool, q bool, fs []Finding) string {
+func (t *Trace) Edge(from, histKey string, s *Sim, sn *Snap, op string, dev bool, q bool, fs []Finding) string {
 	canon := sn.CanonRouting()
 	to := t.Hash(canon)
-	t.line("E", from, to, b01(dev), op)
-	t.state(to, s, sn, q, fs)
+	// one write for both lines
+	t.f.WriteString("E\t" + from + "\t" + to + "\t" + b01(dev) + "\t" + clean(op) + "\t" + t.Hash(histKey)[:8] + "\n" + t.stateLine(to, s, sn, q, fs))
 	return canon
 }
